@@ -589,6 +589,9 @@ func cmdCheck(args []string) {
 	}
 	fmt.Printf("property %s: %d functions, %d obligations, %d discharged, %d known findings, %d violations (%.1fs)\n", id, len(keys), len(obls), nDis, known, violations, time.Since(start).Seconds())
 	if violations > 0 {
+		if os.Getenv("SPOKVC_KEEPDIR") == "" {
+			os.RemoveAll(dir) // os.Exit skips the deferred removal
+		}
 		os.Exit(1)
 	}
 }
